@@ -276,6 +276,17 @@ func c12RunCase(cs *c12io.Case, sb, scratch string, marker func(tag string)) *c1
 	}
 	obs.Before = c12Snapshot(sb)
 	out := exec1(cs.Flags, &obs.Calls, true)
+	for try := 0; try < 4 && strings.Contains(out.Stderr, "WaitDelay expired"); try++ {
+		// goawk abandons os/exec's output copier 250 ms after a child's exit; on an overloaded
+		// machine that fires although the child wrote nothing (system() = -1). Wall-clock, not
+		// confinement: run the case again from a clean sandbox.
+		if err := c12ResetSandbox(sb, cs.Files); err != nil {
+			break
+		}
+		obs.Calls = nil
+		obs.Before = c12Snapshot(sb)
+		out = exec1(cs.Flags, &obs.Calls, true)
+	}
 	obs.After = c12Snapshot(sb)
 	obs.Err, obs.Status, obs.Stdout, obs.Stderr, obs.StepLimit = out.Err, out.Status, out.Stdout, out.Stderr, out.StepLimit
 	if out.Panic != "" {
